@@ -365,3 +365,201 @@ Proof.
     bind_inv H. eapply LF_trans; [eapply IHa; eauto|]. eapply IHs; eauto.
     destruct script_Q as [QA _]. apply (QA _ _ _ _ I E).
 Qed.
+
+(* ---- one loan: what after_trade guarantees -------------------------------- *)
+Definition fee_p (st : state) (z : Z) : Z := z * f_prot (conf st) / DEC.
+Definition fee_f (st : state) (z : Z) : Z := z * f_flash (conf st) / DEC.
+Definition fee_b (st : state) (z : Z) : Z := z * f_burn (conf st) / DEC.
+
+(* any body that preserves Q (i.e. any borrower script, of any depth): the OUTER loan's fees are paid *)
+Lemma loan_settles_outer who z body st st' :
+  (forall s1 s2, Inv s1 -> body s1 = Ok s2 -> Q s1 s2) ->
+  Inv st -> flash_loan who z body st = Ok st' ->
+  bal st + fee_p st z + fee_f st z <= bal st' /\ counter st' = counter st /\ supply st' <= supply st /\ Q st st' /\
+  0 <= z /\ 0 <= fee_p st z /\ 0 <= fee_f st z /\ 0 <= fee_b st z.
+Proof.
+  intros HB I H. pose proof (flash_loan_Q _ _ _ _ _ HB I H) as [HQ Hsup].
+  apply flash_loan_spec in H as (_ & Hc & ab1 & st2 & Hx & Hbody & Hat).
+  set (st1 := set_counter (set_ab st ab1) (counter st + 1)) in *.
+  assert (I1 : Inv st1).
+  { destruct I. constructor; unfold st1; simp; auto; try lia. apply (xfer_nonneg _ _ _ _ _ _ i_ab0 Hx). }
+  destruct (HB _ _ I1 Hbody) as (I2 & C2 & F2 & LA2 & LL2 & S2 & V2).
+  pose proof (xfer_ok _ _ _ _ _ _ Hx) as (Hv & _ & Hz & _).
+  assert (Hlen2 : (VAULT < length (ab st2))%nat).
+  { rewrite LA2. unfold st1; simp. rewrite (xfer_length _ _ _ _ _ _ Hx). auto. }
+  apply after_trade_spec in Hat. cbv zeta in Hat. destruct Hat as (Hle & Hb & ->).
+  rewrite F2 in *. unfold st1 in *; simp.
+  destruct (fees_valid_true _ _ _ (i_fees _ I)) as (Hp & Hf & Hbn & _).
+  pose proof (fee_floor_nonneg z _ Hz Hp). pose proof (fee_floor_nonneg z _ Hz Hf). pose proof (fee_floor_nonneg z _ Hz Hbn).
+  unfold fee_p, fee_f, fee_b. split; [|split; [|split; [|split; [|split; [|split; [|split]]]]]]; auto; try apply HQ.
+  unfold bal at 2; simp. rewrite get_upd_same by auto. fold (bal st2). lia.
+Qed.
+
+(* a body that is also loan-free: full settlement of this loan *)
+Lemma loan_settles who z body st st' :
+  (forall s1 s2, Inv s1 -> body s1 = Ok s2 -> Q s1 s2 /\ LF s1 s2) ->
+  Inv st -> flash_loan who z body st = Ok st' ->
+  bal st + fee_p st z + fee_f st z <= bal st' /\
+  burned st' = burned st + fee_b st z /\ allf st' = allf st + fee_p st z /\ pend st' <= pend st + fee_p st z /\
+  counter st' = counter st /\ supply st' <= supply st /\ Q st st' /\ 0 <= fee_f st z.
+Proof.
+  intros HB I H.
+  assert (HBQ : forall s1 s2, Inv s1 -> body s1 = Ok s2 -> Q s1 s2) by (intros; eapply HB; eauto).
+  pose proof (loan_settles_outer _ _ _ _ _ HBQ I H) as (Hbal & Hcnt & Hsup & HQ & Hz & _ & Hff & _).
+  apply flash_loan_spec in H as (_ & Hc & ab1 & st2 & Hx & Hbody & Hat).
+  set (st1 := set_counter (set_ab st ab1) (counter st + 1)) in *.
+  assert (I1 : Inv st1).
+  { destruct I. constructor; unfold st1; simp; auto; try lia. apply (xfer_nonneg _ _ _ _ _ _ i_ab0 Hx). }
+  destruct (HB _ _ I1 Hbody) as ((I2 & C2 & F2 & _) & (A2 & B2 & P2)).
+  apply after_trade_spec in Hat. cbv zeta in Hat. destruct Hat as (Hle & Hb & ->).
+  rewrite F2 in *. unfold st1 in *; simp. unfold fee_p, fee_f, fee_b in *.
+  split; [|split; [|split; [|split; [|split; [|split; [|split]]]]]]; auto; simp; try lia.
+Qed.
+
+(* ---- share price ----------------------------------------------------------- *)
+Definition Solvent (st : state) : Prop := pend st <= bal st.
+Definition Good (st : state) : Prop := Inv st /\ Solvent st /\ counter st = 0.
+(* the assets backing one share do not decrease: backing/supply <= backing'/supply', cross-multiplied *)
+Definition PM (st st' : state) : Prop :=
+  0 < supply st -> 0 < supply st' /\ backing st * supply st' <= backing st' * supply st.
+
+Lemma PM_refl st : PM st st.
+Proof. unfold PM. intros. split; auto; lia. Qed.
+
+Lemma PM_trans a b c : PM a b -> PM b c -> PM a c.
+Proof.
+  unfold PM. intros H1 H2 Ha. destruct (H1 Ha) as [Hb L1]. destruct (H2 Hb) as [Hc L2]. split; auto.
+  assert (supply b * (backing a * supply c) <= supply b * (backing c * supply a)); [|nia].
+  assert (backing a * supply b * supply c <= backing b * supply a * supply c) by nia.
+  assert (backing b * supply c * supply a <= backing c * supply b * supply a) by nia.
+  nia.
+Qed.
+
+Lemma PM_of st st' : 0 <= backing st -> backing st <= backing st' -> supply st' <= supply st ->
+  (0 < supply st -> 0 < supply st') -> PM st st'.
+Proof. unfold PM. intros HT Hle HS Hp H0. split; auto. nia. Qed.
+
+Lemma Q_supply_pos st st' : Inv st -> Q st st' -> 0 < supply st -> 0 < supply st'.
+Proof.
+  intros I (I' & _ & _ & _ & _ & _ & V) Hp. pose proof (i_locked _ I Hp). pose proof MIN_LIQ_pos.
+  apply supply_pos_of_locked; auto. lia.
+Qed.
+
+Lemma good_backing st : Good st -> 0 <= backing st.
+Proof. intros (_ & S & _). unfold Solvent, backing in *. lia. Qed.
+
+(* change of the asset ledger that does not lower the vault balance *)
+Lemma good_set_ab st ab' : Good st -> nonneg ab' -> length ab' = length (ab st) -> bal st <= get ab' VAULT ->
+  Good (set_ab st ab') /\ PM st (set_ab st ab').
+Proof.
+  intros G Hn Hl Hb. pose proof (good_backing _ G). destruct G as (I & S & C).
+  split.
+  - split; [apply Inv_set_ab; auto|]. split; [unfold Solvent, bal in *; simp; lia | simp; auto].
+  - apply PM_of; auto; unfold backing, bal, supply in *; simp; lia.
+Qed.
+
+Lemma good_xfer_in st k from to z ab' : Good st -> from <> VAULT -> xfer k (ab st) from to z = Ok ab' ->
+  Good (set_ab st ab') /\ PM st (set_ab st ab').
+Proof.
+  intros G Hne Hx. apply good_set_ab; auto.
+  - eapply xfer_nonneg; eauto. apply G.
+  - eapply xfer_length; eauto.
+  - rewrite (xfer_get _ _ _ _ _ _ VAULT Hx). pose proof (xfer_ok _ _ _ _ _ _ Hx) as (_ & _ & Hz & _).
+    destruct (Nat.eqb_spec VAULT from); [congruence|]. unfold bal. destruct (Nat.eqb VAULT to); lia.
+Qed.
+
+Lemma deposit_good u z sent st st' : Good st -> u <> VAULT -> deposit u z sent st = Ok st' ->
+  Good st' /\ PM st st' /\
+  (0 < supply st -> (get (lp st') u - get (lp st) u) * backing st <= z * supply st /\
+                    supply st' = supply st + (get (lp st') u - get (lp st) u)) /\
+  bal st' = bal st + z /\ 0 <= z /\ pend st' = pend st.
+Proof.
+  intros G Hne H. pose proof (good_backing _ G) as HT. destruct G as (I & S & C).
+  pose proof (deposit_Q _ _ _ _ _ I H) as (HQ & _).
+  apply deposit_spec in H as (_ & Hc & _ & Hu & ab' & locked & share & Hcase & Hx & ->).
+  assert (Hv : (VAULT < length (lp st))%nat) by (unfold VAULT; lia).
+  pose proof (nonneg_sum _ (i_lp _ I)) as HS. fold (supply st) in HS.
+  assert (Hbal : get ab' VAULT = bal st + z /\ 0 <= z).
+  { destruct Hx as [[-> ->]|[Hz Hx]]; [unfold bal; lia|].
+    rewrite (xfer_get _ _ _ _ _ _ VAULT Hx). pose proof (xfer_ok _ _ _ _ _ _ Hx) as (_ & _ & Hz0 & _).
+    destruct (Nat.eqb_spec VAULT u); [congruence|]. cbn. unfold bal. lia. }
+  destruct Hbal as [Hbal Hz].
+  set (lp1 := upd (lp st) VAULT (get (lp st) VAULT + locked)) in *.
+  assert (Hlen1 : length lp1 = length (lp st)) by (unfold lp1; apply length_upd).
+  assert (Hgu : get (upd lp1 u (get lp1 u + share)) u - get (lp st) u = share).
+  { rewrite get_upd_same by lia. unfold lp1. rewrite get_upd_other by auto. lia. }
+  assert (Hsup : sumZ (upd lp1 u (get lp1 u + share)) = supply st + locked + share).
+  { rewrite sumZ_upd by lia. unfold lp1. rewrite sumZ_upd by lia. unfold supply. lia. }
+  split; [|split; [|split; [|split; [|split]]]]; simp; auto.
+  - split; [apply HQ|]. split; [unfold Solvent, bal in *; simp; lia | simp; auto].
+  - unfold PM. intros Hp. split; [eapply Q_supply_pos; eauto|].
+    destruct Hcase as [(Hs0 & _)|(Hs & -> & Hle & Hb & ->)]; [lia|].
+    unfold backing, bal, supply in *; simp. rewrite Hbal, Hsup.
+    set (T := get (ab st) VAULT - pend st) in *. set (S0 := sumZ (lp st)) in *.
+    assert (0 < T) by lia. pose proof (Z.mul_div_le (z * S0) T H). nia.
+  - intros Hp. rewrite Hgu. destruct Hcase as [(Hs0 & _)|(Hs & -> & Hle & Hb & ->)]; [lia|].
+    unfold supply in *; simp. rewrite Hsup. split; [|lia].
+    assert (0 < backing st) by lia. pose proof (Z.mul_div_le (z * sumZ (lp st)) (backing st) H). nia.
+Qed.
+
+Lemma withdraw_good u a st st' : Good st -> withdraw u a st = Ok st' ->
+  Good st' /\ PM st st' /\
+  (bal st - bal st') * supply st <= a * backing st /\ get (ab st') u = get (ab st) u + (bal st - bal st') /\
+  supply st' = supply st - a /\ 0 <= bal st - bal st'.
+Proof.
+  intros G H. destruct G as (I & S & C).
+  pose proof (withdraw_facts _ _ _ _ I H) as (HQ & Hsup & Hlp & Ha & w & Hw & Hx & Hle & Hw0 & HSp & HT & Hne).
+  assert (Hbal : bal st' = bal st - w).
+  { unfold bal. rewrite (xfer_get _ _ _ _ _ _ VAULT Hx). destruct (Nat.eqb_spec VAULT u); [congruence|]. cbn. lia. }
+  assert (Hu : get (ab st') u = get (ab st) u + w).
+  { rewrite (xfer_get _ _ _ _ _ _ u Hx). destruct (Nat.eqb_spec u VAULT); [congruence|]. rewrite Nat.eqb_refl. lia. }
+  assert (Hp : pend st' = pend st).
+  { apply withdraw_spec in H as (_ & _ & _ & _ & _ & _ & ab' & _ & ->). reflexivity. }
+  assert (HaS : a <= supply st).
+  { apply withdraw_spec in H as (_ & _ & Hal & _). pose proof (get_le_sum (lp st) u (i_lp _ I)). unfold supply. lia. }
+  assert (HwT : w <= backing st) by nia.
+  split; [|split; [|repeat split]]; auto; try lia.
+  - split; [apply HQ|]. split; [unfold Solvent, backing in *; lia | destruct HQ as (_ & -> & _); auto].
+  - unfold PM. intros _. split; [eapply Q_supply_pos; eauto|].
+    unfold backing in *. rewrite Hbal, Hp, Hsup. nia.
+Qed.
+
+Lemma collect_good st st' : Good st -> collect st = Ok st' -> Good st' /\ PM st st'.
+Proof.
+  intros G H. pose proof (good_backing _ G) as HT. destruct G as (I & S & C).
+  pose proof (collect_Q _ _ I H) as (HQ & Hp & _ & _ & Hb & Hlp).
+  split.
+  - split; [apply HQ|]. split; [unfold Solvent, backing in *; lia | destruct HQ as (_ & -> & _); auto].
+  - apply PM_of; auto; try lia; unfold supply; rewrite Hlp; lia.
+Qed.
+
+Theorem script_G :
+  (forall a, unnested_a a = true -> forall L st st', Good st -> run_action L a st = Ok st' -> Good st' /\ PM st st') /\
+  (forall s, unnested s = true -> forall L st st', Good st -> run_script L s st = Ok st' -> Good st' /\ PM st st').
+Proof.
+  destruct script_Q as [QA QS]. destruct script_LF as [LA LS].
+  apply action_script_ind.
+  - (* APay *) intros tgt z _ L st st' G H. cbn [run_action] in H. bind_as H ab' EX. inversion H; subst.
+    refine (good_xfer_in _ _ ADV _ _ _ G _ EX); unfold ADV, VAULT; lia.
+  - (* ARepayQ *) intros d _ L st st' G H. apply repayq_inv in H as (q & pf & ff & bf & _ & [[_ ->]|(_ & ab' & Hx & ->)]).
+    + split; auto. apply PM_refl.
+    + refine (good_xfer_in _ _ ADV _ _ _ G _ Hx); unfold ADV, VAULT; lia.
+  - (* ALoan *) intros z s _ Hlf L st st' G H. cbn [unnested_a] in Hlf. cbn [run_action] in H.
+    pose proof (good_backing _ G) as HT. destruct G as (I & S & C).
+    assert (HB : forall s1 s2, Inv s1 -> run_script z s s1 = Ok s2 -> Q s1 s2 /\ LF s1 s2) by (intros; split; eauto).
+    pose proof (loan_settles _ _ _ _ _ HB I H) as (Hbal & _ & _ & Hp & Hc & Hsup & HQ & Hff).
+    split.
+    + split; [apply HQ|]. split; [unfold Solvent in *; lia | lia].
+    + apply PM_of; auto; [unfold backing in *; lia|]. eapply Q_supply_pos; eauto.
+  - (* ADeposit *) intros z _ L st st' G H. cbn [run_action] in H.
+    eapply deposit_good in H; eauto; [|unfold ADV, VAULT; lia]. split; apply H.
+  - (* AWithdraw *) intros a _ L st st' G H. cbn [run_action] in H. eapply withdraw_good in H; eauto. split; apply H.
+  - (* ACollect *) intros _ L st st' G H. cbn [run_action] in H. eapply collect_good; eauto.
+  - intros _ L st st' G H. discriminate H.
+  - (* ATry *) intros s IH Hu L st st' G H. cbn [run_action] in H. cbn [unnested_a] in Hu.
+    destruct (run_script L s st) eqn:E; inversion H; subst; try (split; auto; apply PM_refl). eapply IH; eauto.
+  - intros _ L st st' G H. inversion H; subst. split; auto. apply PM_refl.
+  - intros a IHa s IHs Hu L st st' G H. cbn [run_script] in H. cbn [unnested] in Hu. apply andb_true_iff in Hu as [Hua Hus].
+    bind_as H st1 E1. destruct (IHa Hua _ _ _ G E1) as [G1 P1]. destruct (IHs Hus _ _ _ G1 H) as [G2 P2].
+    split; auto. eapply PM_trans; eauto.
+Qed.
